@@ -41,7 +41,7 @@ def op_value_bounds(sl, odom, var="ov"):
     return "0 <= %s < %d" % (var, n)
 
 
-def state_jobs(prop, module, body, trees, dom, budget, nparts, tmo, rng, extra_ctx=None, tag="", nsamples=2, extra_params=None, extra_pre="", extra_samples=None, must_free=None):
+def state_jobs(prop, module, body, trees, dom, budget, nparts, tmo, rng, extra_ctx=None, tag="", nsamples=2, extra_params=None, extra_pre="", extra_samples=None, must_free=None, fix_first="values"):
     """One job per (tree, partition): all user-state descriptors of the tree inside `dom`.
     extra_params/extra_pre append further symbolic parameters (operations etc.); extra_samples() -> list of values."""
     from ..engine import Job
@@ -50,7 +50,7 @@ def state_jobs(prop, module, body, trees, dom, budget, nparts, tmo, rng, extra_c
     out = []
     for tid in trees:
         slots = ST.layout(tid)
-        parts, complete = ST.partitions(slots, dom, budget, nparts, rng, must_free=(must_free(tid, slots) if must_free else ()))
+        parts, complete = ST.partitions(slots, dom, budget, nparts, rng, must_free=(must_free(tid, slots) if must_free else ()), fix_first=fix_first)
         for pi, fixed in enumerate(parts):
             sp, spre = ST.params_for(slots, dom, fixed=fixed)
             free = [sl for sl in slots if sl.name not in fixed]
